@@ -837,6 +837,89 @@ def forward_rule_ok(tree, name, primal):
             and _name(rv.elts[1].elts[0], u) and _name(rv.elts[1].elts[1], ps[3]))
 
 
+def primal_params_kind(tree, name):
+    """with which parameters the primal <name>(obj, settings, guess, arg) runs the equation solver, in the restore_kind vocabulary:
+    RestoreSaved: nonlinear_equation_solve(obj, <guess>, arg, ...) with `arg` never re-bound; RestoreSlot K: its third argument is a name bound exactly
+    once, at top level, to param_index_update(obj.p, K, arg); RestoreNone: anything else, or the primal itself assigns obj.p (C07 history model, additive)"""
+    fn = find_func(tree, name)
+    ps = [a.arg for a in fn.args.args]
+    if len(ps) != 4:
+        return 'RestoreNone'
+    obj, arg = ps[0], ps[3]
+    calls = [n for n in ast.walk(fn) if isinstance(n, ast.Call) and callee_name(n.func) == 'nonlinear_equation_solve']
+    if len(calls) != 1 or len(calls[0].args) < 3 or not _name(calls[0].args[0], obj) or any(k.arg in ('objective', 'p') for k in calls[0].keywords):
+        return 'RestoreNone'
+    stores = {}
+    for n in ast.walk(fn):
+        if isinstance(n, (ast.Assign, ast.AugAssign, ast.AnnAssign)):
+            tg = n.targets if isinstance(n, ast.Assign) else [n.target]
+            for t in tg:
+                for sub in ast.walk(t):
+                    if isinstance(sub, ast.Name):
+                        stores.setdefault(sub.id, []).append(n)
+                    if isinstance(sub, ast.Attribute) and _is_obj_attr(sub, obj, 'p'):
+                        return 'RestoreNone'
+    pe = calls[0].args[2]
+    if not isinstance(pe, ast.Name):
+        return 'RestoreNone'
+    if pe.id == arg:
+        return 'RestoreSaved' if arg not in stores else 'RestoreNone'
+    if arg in stores or len(stores.get(pe.id, [])) != 1:
+        return 'RestoreNone'
+    st = stores[pe.id][0]
+    if st not in fn.body or not isinstance(st, ast.Assign) or len(st.targets) != 1 or not isinstance(st.targets[0], ast.Name):
+        return 'RestoreNone'
+    val = st.value
+    if (isinstance(val, ast.Call) and callee_name(val.func) == 'param_index_update' and len(val.args) == 3 and not val.keywords and _is_obj_attr(val.args[0], obj, 'p')
+            and isinstance(val.args[1], ast.Constant) and isinstance(val.args[1].value, int) and _name(val.args[2], arg)
+            and fn.body.index(st) < min(i for i, b in enumerate(fn.body) if any(n is calls[0] for n in ast.walk(b)))):
+        return 'RestoreSlot %d' % val.args[1].value
+    return 'RestoreNone'
+
+
+def equation_solve_assigns_p(repo):
+    """EquationSolver.nonlinear_equation_solve(objective, x0, p, ...): on every path `objective.p = p` has been executed when the solver algorithm is called,
+    and objective.p is assigned nothing else (C07 history model, additive)"""
+    tree = ast.parse(open(os.path.join(repo, 'optimism/EquationSolver.py')).read())
+    fn = find_func(tree, 'nonlinear_equation_solve')
+    ps = [a.arg for a in fn.args.args]
+    if len(ps) < 5 or ps[4] != 'solver_algorithm':
+        return False
+    obj, par, alg = ps[0], ps[2], ps[4]
+    state = dict(bad=False, called_ok=None)
+    for n in ast.walk(fn):
+        if isinstance(n, (ast.Assign, ast.AugAssign)):
+            tg = n.targets if isinstance(n, ast.Assign) else [n.target]
+            for t in tg:
+                if any(isinstance(sub, ast.Name) and sub.id in (obj, par) for sub in ast.walk(t) if not isinstance(t, ast.Attribute)):
+                    state['bad'] = True          # the parameter names themselves are re-bound
+
+    def seq(stmts, assigned):
+        for st in stmts:
+            if isinstance(st, ast.Assign) and len(st.targets) == 1 and _is_obj_attr(st.targets[0], obj, 'p'):
+                if _name(st.value, par):
+                    assigned = True
+                else:
+                    state['bad'] = True
+                continue
+            if isinstance(st, ast.If):
+                a1 = seq(st.body, assigned)
+                a2 = seq(st.orelse, assigned)
+                assigned = a1 and a2
+                continue
+            if isinstance(st, (ast.For, ast.While, ast.With, ast.Try)):
+                state['bad'] = True
+                continue
+            for n in ast.walk(st):
+                if isinstance(n, ast.Attribute) and isinstance(n.ctx, ast.Store) and _is_obj_attr(n, obj, 'p'):
+                    state['bad'] = True
+                if isinstance(n, ast.Call) and _name(n.func, alg):
+                    state['called_ok'] = assigned if state['called_ok'] is None else (state['called_ok'] and assigned)
+        return assigned
+    seq(fn.body, False)
+    return bool(state['called_ok']) and not state['bad']
+
+
 def defvjp_pairs(tree):
     """top-level <primal>.defvjp(<fwd>, <bwd>) statements"""
     out = []
@@ -864,6 +947,12 @@ def rule_semantics_text(repo, tree):
             'Definition fwd_nonlinear_solve_saves_solution_and_design : bool := %s.\n'
             'Definition fwd_nonlinear_solve_with_state_saves_solution_and_params : bool := %s.\n'
             'Definition defvjp_registrations_ok : bool := %s.\n'
+            '(* with which parameters each primal runs the equation solver (RestoreSaved: its Params argument; RestoreSlot k: objective.p with slot k replaced by its\n'
+            '   argument), and whether nonlinear_equation_solve leaves objective.p = the parameters it was given on every path *)\n'
+            'Definition primal_params_nonlinear_solve : restore_kind := %s.\n'
+            'Definition primal_params_nonlinear_solve_with_state : restore_kind := %s.\n'
+            'Definition equation_solve_assigns_objective_p : bool := %s.\n'
             % (clist(['\n   ' + r for r in rows]), cbool(hv_ok), cbool(gx_ok), restore_kind(tree, 'nonlinear_solve_b'),
                restore_kind(tree, 'nonlinear_solve_with_state_b'), cbool(forward_rule_ok(tree, 'nonlinear_solve_f', 'nonlinear_solve')),
-               cbool(forward_rule_ok(tree, 'nonlinear_solve_with_state_f', 'nonlinear_solve_with_state')), cbool(reg)))
+               cbool(forward_rule_ok(tree, 'nonlinear_solve_with_state_f', 'nonlinear_solve_with_state')), cbool(reg),
+               primal_params_kind(tree, 'nonlinear_solve'), primal_params_kind(tree, 'nonlinear_solve_with_state'), cbool(equation_solve_assigns_p(repo))))
